@@ -15,7 +15,7 @@ func init() {
 	register(&Property{
 		ID:         "C14",
 		NeedSSA:    true,
-		Decided:    "Structural necessary conditions: (errflow) in every function of the library's import closure, the error result of every call that can carry a failure of the I/O medium (io/bufio/os interface methods and functions, and module functions that transitively contain such calls) is used: it is not discarded, not bound to `_`, not merely compared and then forgotten, and not overwritten on a loop path before being looked at; the accepted exceptions are frozen with one reason each; (close) (*writer).close performs header, flush, deferred bloom filters, footer and buffer flush in that order and returns the result of the last; (short) writePageTo compares the bytes written with the expected size and reports io.ErrShortWrite; the offset-tracking sink wrapper returns its callee's (n, err) unchanged and adds n to the offset on every path; (readat) the ReadAt helper clears an error only when the buffer was filled. (chunkeof) every stream-read error FilePages.ReadPage returns went through a function that compares the position with the size of the chunk section or turns io.EOF into io.ErrUnexpectedEOF; (copylen) the byte count of a copy from an io.NewSectionReader is used. (rollback) a function that appends, to a list of the writer, entries carrying the index len(writer.rowGroups) of the row group it is about to record, and that can return an error, truncates that list back to a length measured before its first append (in its body or a deferred closure).",
+		Decided:    "Structural necessary conditions: (errflow) in every function of the library's import closure, the error result of every call that can carry a failure of the I/O medium (io/bufio/os interface methods and functions, and module functions that transitively contain such calls) is used: it is not discarded, not bound to `_`, not merely compared and then forgotten, and not overwritten on a loop path before being looked at; the accepted exceptions are frozen with one reason each; (close) (*writer).close performs header, flush, deferred bloom filters, footer and buffer flush in that order and returns the result of the last; (short) writePageTo compares the bytes written with the expected size and reports io.ErrShortWrite; the offset-tracking sink wrapper returns its callee's (n, err) unchanged and adds n to the offset on every path; (readat) the ReadAt helper clears an error only when the buffer was filled. (chunkeof) every stream-read error FilePages.ReadPage returns went through a function that compares the position with the size of the chunk section or turns io.EOF into io.ErrUnexpectedEOF; (copylen) the byte count of a copy from an io.NewSectionReader is used. (rollback) a function that appends, to a list of the writer, entries carrying the index len(writer.rowGroups) of the row group it is about to record, and that can return an error, truncates that list back to a length measured before its first append (in its body or a deferred closure). (freshcompare) no value whose every origin is fmt.Errorf / errors.New is compared with a package-level error by == or !=. (eofcount) where the io.EOF of a Read / ReadAt / io.ReadFull is tolerated (its edge reaches a return without error) the byte count of that call is used.",
 		NotDecided: "that each byte offset is actually reached; behaviour of foreign io.Writer/io.ReaderAt implementations; whether an error value that is used is also acted upon correctly (a condition inverted, a wrong variable of the same type returned from a used value).",
 		Assumptions: []string{
 			"an SSA error value with no referrers is a dropped error; go/ssa removes dead stores, so an assignment that is overwritten before any read also has no referrers",
@@ -70,6 +70,8 @@ func runC14(c *Ctx) {
 	c14ChunkEOF(c)
 	c14CopyLen(c)
 	runRollbackRule(c, "C14.rollback", "writer", "rowGroups", 1)
+	c14FreshCompare(c)
+	c14EOFCount(c)
 	p := c.P
 	io := NewIOErrs(p)
 	inScope := rootImportClosure(p)
@@ -561,5 +563,168 @@ func c14CopyLen(c *Ctx) {
 		})
 	}
 	c.Stats[rule+".section_copies"] = n
+	c.Min(rule, 1)
+}
+
+// c14FreshCompare — an error that was just made by fmt.Errorf or errors.New is
+// never identical to a sentinel: a `==`/`!=` comparison between a value whose
+// every origin is such a constructor call and a package-level error variable
+// can have only one outcome. Written after a wrap was inserted one line above
+// an `err == io.EOF` test, which then let the wrapped io.EOF out.
+func c14FreshCompare(c *Ctx) {
+	rule := "C14.freshcompare"
+	p := c.P
+	examined := 0
+	var bad []string
+	for _, fn := range p.ModuleSSAFuncs() {
+		if fn.Origin() != nil || fn.Blocks == nil || !inModule(fn) {
+			continue
+		}
+		allInstrs(fn, false, func(_ *ssa.Function, ins ssa.Instruction) {
+			bo, ok := ins.(*ssa.BinOp)
+			if !ok || (bo.Op != token.EQL && bo.Op != token.NEQ) || !isErrorType(bo.X.Type()) {
+				return
+			}
+			isSentinel := func(v ssa.Value) bool {
+				u, ok := v.(*ssa.UnOp)
+				if !ok {
+					return false
+				}
+				_, isG := u.X.(*ssa.Global)
+				return isG
+			}
+			var other ssa.Value
+			switch {
+			case isSentinel(bo.X):
+				other = bo.Y
+			case isSentinel(bo.Y):
+				other = bo.X
+			default:
+				return
+			}
+			examined++
+			os := Origins(other, OriginOpts{})
+			if len(os) == 0 {
+				return
+			}
+			for _, o := range os {
+				if o.Kind != OrgCall || !errorConstructors[calleeName(o.Call)] && calleeName(o.Call) != "errors.New" {
+					return
+				}
+			}
+			bad = append(bad, FuncKey(fn)+" at "+p.Pos(bo.Pos()))
+		})
+	}
+	sort.Strings(bad)
+	c.Stats[rule+".sentinel_comparisons"] = examined
+	c.Check(rule, "no freshly made error is compared with a sentinel by identity", token.NoPos, len(bad) == 0 && examined >= 20, strings.Join(bad, "; ")+": the error on one side was just made by fmt.Errorf / errors.New and cannot be the sentinel it is compared with — the branch that handles the sentinel (an io.EOF turned into io.ErrUnexpectedEOF) is dead and the wrapped sentinel escapes to callers that test errors.Is")
+}
+
+// c14EOFCount — io.ReaderAt.ReadAt and io.ReadFull may report io.EOF together
+// with fewer bytes than asked for: code that tolerates the io.EOF of such a
+// call (compares its error with io.EOF, or asks errors.Is) looks at the byte
+// count it returned. Tolerating the error while discarding the count works on
+// whatever the buffer held before.
+func c14EOFCount(c *Ctx) {
+	rule := "C14.eofcount"
+	p := c.P
+	n := 0
+	for _, fn := range p.ModuleSSAFuncs() {
+		if fn.Origin() != nil || fn.Blocks == nil || !inModule(fn) {
+			continue
+		}
+		k := 0
+		allCalls(fn, false, func(_ *ssa.Function, ci ssa.CallInstruction) {
+			call, ok := ci.(*ssa.Call)
+			if !ok {
+				return
+			}
+			name := calleeName(call)
+			isRead := name == "io.ReadFull" || name == "io.ReadAtLeast"
+			if cc := call.Common(); cc.IsInvoke() && (cc.Method.Name() == "ReadAt" || cc.Method.Name() == "Read") {
+				isRead = true
+			}
+			if !isRead || call.Referrers() == nil {
+				return
+			}
+			var cnt, errv ssa.Value
+			for _, r := range *call.Referrers() {
+				if ex, ok := r.(*ssa.Extract); ok {
+					if isErrorType(ex.Type()) {
+						errv = ex
+					} else {
+						cnt = ex
+					}
+				}
+			}
+			if errv == nil {
+				return
+			}
+			// is the io.EOF of this call tolerated?
+			// tolerated: on the edge where the error is io.EOF a return without
+			// error (or with the nil constant) can be reached
+			tolerated := false
+			succeeds := func(from *ssa.BasicBlock) bool {
+				for rb := range reachableAvoidingSet(from, nil, nil) {
+					ret, ok := rb.Instrs[len(rb.Instrs)-1].(*ssa.Return)
+					if !ok {
+						continue
+					}
+					if len(ret.Results) == 0 {
+						return true
+					}
+					rv, _ := retResult(ret, len(ret.Results)-1) // sees through results spilled for deferred calls
+					if rv == nil || !isErrorType(rv.Type()) || isNilConst(rv) {
+						return true
+					}
+					for _, o := range Origins(rv, OriginOpts{}) {
+						if o.Kind == OrgConst {
+							if k, ok := o.Val.(*ssa.Const); ok && k.IsNil() {
+								return true
+							}
+						}
+					}
+				}
+				return false
+			}
+			for _, r := range realReferrers(errv) {
+				x, ok := r.(*ssa.BinOp)
+				if !ok || (x.Op != token.EQL && x.Op != token.NEQ) {
+					continue
+				}
+				isEOF := false
+				for _, side := range []ssa.Value{x.X, x.Y} {
+					if u, ok := side.(*ssa.UnOp); ok {
+						if g, ok := u.X.(*ssa.Global); ok && g.Name() == "EOF" {
+							isEOF = true
+						}
+					}
+				}
+				if !isEOF {
+					continue
+				}
+				for _, rr := range realReferrers(x) {
+					ifi, ok := rr.(*ssa.If)
+					if !ok {
+						continue
+					}
+					eofEdge := ifi.Block().Succs[0]
+					if x.Op == token.NEQ {
+						eofEdge = ifi.Block().Succs[1]
+					}
+					if succeeds(eofEdge) {
+						tolerated = true
+					}
+				}
+			}
+			if !tolerated {
+				return
+			}
+			n++
+			k++
+			used := cnt != nil && len(realReferrers(cnt)) > 0
+			c.Check(rule, FuncKey(fn)+" looks at the byte count of the read whose io.EOF it tolerates#"+itoa(k), call.Pos(), used, FuncKey(fn)+" compares the error of "+name+" with io.EOF and discards the number of bytes read: a short read goes unnoticed and the caller works on whatever the buffer held before (a bloom filter block of the previous probe)")
+		})
+	}
 	c.Min(rule, 1)
 }
